@@ -78,7 +78,8 @@ impl RuledefMap
             {
                 break;
             }
-            else if let asm::RulePatternPart::Exact(c) = part
+            else if let asm::RulePatternPart::Exact(c) |
+                asm::RulePatternPart::ExactGlued(c) = part
             {
                 prefix[prefix_index] = c.to_ascii_lowercase();
                 prefix_index += 1;
@@ -108,30 +109,23 @@ impl RuledefMap
         let mut prefix: RuledefMapPrefix = ['\0'; MAX_PREFIX_SIZE];
         let mut prefix_index = 0;
 
-        let mut walker_index = 0;
+        // Read characters the same way the matcher does
+        let mut walker = walker.clone();
 
         while prefix_index < MAX_PREFIX_SIZE
         {
-            let token = walker.next_nth_token(walker_index);
-            walker_index += 1;
+            walker.skip_ignorable();
 
-            if token.kind.is_allowed_pattern_token()
-            {
-                for c in walker.get_span_excerpt(token.span).chars()
-                {
-                    if prefix_index >= MAX_PREFIX_SIZE
-                    {
-                        break;
-                    }
-
-                    prefix[prefix_index] = c.to_ascii_lowercase();
-                    prefix_index += 1;
-                }
-            }
-            else
+            let c = walker.next_char();
+            if c == '\0'
             {
                 break;
             }
+
+            walker.maybe_expect_char(c);
+
+            prefix[prefix_index] = c.to_ascii_lowercase();
+            prefix_index += 1;
         }
 
         prefix
